@@ -107,6 +107,12 @@ Definition ri_taskx_callback_rows : list string := [
   "taskx/task_callback.go:taskCallback.Get1|S:wg.Wait R:result ret"
 ].
 
+(* NOTE (queue node, wheel slot, WaitClose.closeChan): the three instances below are kept as the
+   protocol-level reading of these components, but they are now BACKED by model-level theorems:
+   the steps of the small-step models themselves (models/Queue.v, Wheel.v, WaitClose.v) are labelled
+   with their memory events in models/RaceQueue.v, RaceWheel.v, RaceWaitClose.v, and every run of
+   the labelled models is proved free of happens-before races (props/C18.v:
+   c18_queue_model_race_free, c18_wheel_model_race_free, c18_waitclose_model_race_free). *)
 (* loom.Queue node: Push initialises node.value (1) before the link CAS on tail.next (obj 10, release); a Pop reads next.value only after queueLoad(&head.next) returned that node (acquire that observed the link). *)
 Definition ri_queue_node : rc_pub := {| pb_ws := [1]%nat; pb_os := [10]%nat; pb_readers := [(10, [1]); (10, [1]); (10, [1])]%nat |}.
 Definition ri_queue_node_rows : list string := [
